@@ -94,6 +94,7 @@ class Prop:
     # qualified "module:qualname" of repository functions the workload must enter
     anchors: List[str] = []
     # lower bounds below which a run is inconclusive
+    warnings_as_errors = True   # every fifth case runs under warnings.simplefilter("error"); off where the statement itself demands a warning
     min_evaluations = {"quick": 1, "thorough": 1}
     exhaustive = {"quick": False, "thorough": False}
     # soft wall-clock budget per worker (s); generation stops after it (truncated run)
